@@ -19,6 +19,8 @@
 package storage
 
 import (
+	"context"
+	"errors"
 	"strings"
 	"sync"
 	"time"
@@ -64,6 +66,31 @@ func (s redisSessionDatabase) Close() {
 	if s.client != nil {
 		_ = s.client.Close()
 	}
+}
+
+var _ atomicSessionDatabase = redisSessionDatabase{}
+
+// getAndDelete reads and deletes the entry in a MULTI/EXEC transaction, which Redis executes as a single isolated operation:
+// of all node processes that present the same key, only one gets the value. (GETDEL does the same, but requires Redis 6.2.)
+func (s redisSessionDatabase) getAndDelete(ctx context.Context, fullKey string) ([]byte, error) {
+	var get *redis.StringCmd
+	_, err := s.client.TxPipelined(ctx, func(pipe redis.Pipeliner) error {
+		get = pipe.Get(ctx, fullKey)
+		pipe.Del(ctx, fullKey)
+		return nil
+	})
+	if err != nil {
+		if errors.Is(err, redis.Nil) {
+			return nil, ErrNotFound
+		}
+		return nil, err
+	}
+	return get.Bytes()
+}
+
+// putIfAbsent stores the value with SET NX.
+func (s redisSessionDatabase) putIfAbsent(ctx context.Context, fullKey string, value []byte, ttl time.Duration) (bool, error) {
+	return s.client.SetNX(ctx, fullKey, value, ttl).Result()
 }
 
 func (s redisSessionDatabase) getFullKey(prefixes []string, key string) string {
